@@ -1,0 +1,55 @@
+//go:build verif
+
+// Contracts for the govc verifier (comment-only; see /verif/DESIGN.md).
+// This file contains no code. It is read as text by /verif/bin/govc.
+
+package check
+
+//@ default mode int
+
+// ---- ghost semantics (see /verif/contracts/lib.contracts for wval, condOf) ----
+
+// holds(op, x, y): the comparison `x op y` over the integers.
+//@ spec holds(op t.ID, x mathint, y mathint) bool = (op == t.IDXBinaryNotEq && x != y) || (op == t.IDXBinaryLessThan && x < y) || (op == t.IDXBinaryLessEq && x <= y) || (op == t.IDXBinaryEqEq && x == y) || (op == t.IDXBinaryGreaterEq && x >= y) || (op == t.IDXBinaryGreaterThan && x > y)
+
+// factsHold(q): every fact the checker currently remembers is true in the state.
+//@ ghost factsHold(q *checker) bool
+
+//@ axiom zeroexpr: zeroExpr != nil && wval(zeroExpr) == 0
+
+// parseBinaryOp decomposes n as "lhs op rhs"; the ensures clauses are the meaning
+// of the comparison and arithmetic operators (language definition, assumed).
+//@ func parseBinaryOp
+//@   prop C02
+//@   trusted semantics of binary operators: wval(n) is the operator applied to wval(lhs), wval(rhs)
+//@   pure
+//@   requires n != nil
+//@   ensures implies(op != 0, lhs != nil && rhs != nil)
+//@   ensures implies(op == t.IDXBinaryNotEq || op == t.IDXBinaryLessThan || op == t.IDXBinaryLessEq || op == t.IDXBinaryEqEq || op == t.IDXBinaryGreaterEq || op == t.IDXBinaryGreaterThan, wval(n) == ite(holds(op, wval(lhs), wval(rhs)), 1, 0))
+//@   ensures implies(op == t.IDXBinaryPlus, wval(n) == wval(lhs) + wval(rhs))
+//@   ensures implies(op == t.IDXBinaryMinus, wval(n) == wval(lhs) - wval(rhs))
+//@   ensures implies(op == t.IDXBinaryStar, wval(n) == wval(lhs) * wval(rhs))
+
+//@ func argValue
+//@   prop C02
+//@   trusted returns the named argument expression or nil; no semantic promise is used
+//@   pure
+
+// proveReasonRequirement: if it returns nil then "lhs op rhs" follows from the
+// remembered facts (assumed here; it rests on proveBinaryOp and the bounds checker).
+//@ func proveReasonRequirement
+//@   prop C02
+//@   trusted soundness of proveBinaryOp (facts + interval bounds) is assumed, not proved
+//@   pure
+//@   requires q != nil
+//@   ensures implies(factsHold(q) && result == nil && lhs != nil && rhs != nil, holds(op, wval(lhs), wval(rhs)))
+
+// Every axiom procedure in the generated table `reasons` (the function literals
+// of the package initialiser that take (q, n)): if it accepts, the asserted
+// condition is true whenever the remembered facts are. This is "each named
+// axiom is a valid theorem over the integers".
+//@ func init$*
+//@   prop C02
+//@   params q n
+//@   requires q != nil && n != nil
+//@   ensures[theorem] implies(factsHold(q) && result == nil, wval(condOf(n)) == 1)
